@@ -30,6 +30,40 @@ except Exception:  # pragma: no cover
 
 
 # --------------------------------------------------------------------------- errors
+_COMM = None
+
+
+def chash(e, memo=None):
+    """structural hash of a z3 term that does not depend on the order of the arguments of commutative
+    operators: the code under test iterates over sets of objects (hashed by address), so the same condition
+    can be built with its conjuncts / summands in another order on a re-execution"""
+    global _COMM
+    if _COMM is None:
+        _COMM = {z3.Z3_OP_AND, z3.Z3_OP_OR, z3.Z3_OP_ADD, z3.Z3_OP_MUL, z3.Z3_OP_EQ, z3.Z3_OP_DISTINCT, z3.Z3_OP_IFF}
+    memo = {} if memo is None else memo
+    k = e.get_id()
+    if k in memo:
+        return memo[k]
+    if z3.is_app(e):
+        d = e.decl()
+        kind = d.kind()
+        kids = [chash(c, memo) for c in e.children()]
+        if kind in _COMM:
+            kids.sort()
+        if kind == z3.Z3_OP_UNINTERPRETED:
+            h = zlib.crc32(("u:%s:%s" % (d.name(), kids)).encode())
+        elif not kids:
+            h = zlib.crc32(("c:%s" % e.sexpr()).encode())
+        else:
+            h = zlib.crc32(("a:%d:%s" % (kind, kids)).encode())
+    elif z3.is_quantifier(e):
+        h = zlib.crc32(("q:%s" % chash(e.body(), memo)).encode())
+    else:
+        h = zlib.crc32(e.sexpr().encode())
+    memo[k] = h
+    return h
+
+
 class Abort(BaseException):
     """Path abandoned (infeasible assumption / pruned).  BaseException on purpose:
     code under test catches ``Exception`` in places."""
@@ -129,7 +163,7 @@ def is_sym(x):
 def zbool(c):
     """anything truthy-ish -> z3 BoolRef or python bool"""
     if isinstance(c, SymBool):
-        return c.t
+        return c.raw
     if isinstance(c, z3.BoolRef):
         return c
     if isinstance(c, (bool,)) or (_np is not None and isinstance(c, _np.bool_)):
@@ -138,41 +172,43 @@ def zbool(c):
 
 
 def _mk_bool(t):
+    raw = t
     t = z3.simplify(t)
     if z3.is_true(t):
         return True
     if z3.is_false(t):
         return False
-    return SymBool(t)
+    return SymBool(t, raw)
 
 
 # --------------------------------------------------------------------------- proxies
 class SymBool(object):
-    __slots__ = ("t",)
+    __slots__ = ("t", "raw")
 
-    def __init__(self, t):
+    def __init__(self, t, raw=None):
         self.t = t
+        self.raw = raw if raw is not None else t      # the term as built (stable structure, used to tag decisions)
 
     def __bool__(self):
         p = _CUR
         if p is None:
             raise HarnessError("symbolic boolean used outside a path")
-        return p.branch(self.t)
+        return p.branch(self.t, self.raw)
 
     def __and__(self, o):
         o = zbool(o)
-        return _mk_bool(z3.And(self.t, o)) if not isinstance(o, bool) else (self if o else False)
+        return _mk_bool(z3.And(self.raw, o)) if not isinstance(o, bool) else (self if o else False)
 
     __rand__ = __and__
 
     def __or__(self, o):
         o = zbool(o)
-        return _mk_bool(z3.Or(self.t, o)) if not isinstance(o, bool) else (True if o else self)
+        return _mk_bool(z3.Or(self.raw, o)) if not isinstance(o, bool) else (True if o else self)
 
     __ror__ = __or__
 
     def __invert__(self):
-        return _mk_bool(z3.Not(self.t))
+        return _mk_bool(z3.Not(self.raw))
 
     def __xor__(self, o):
         o = zbool(o)
@@ -645,14 +681,14 @@ class SymPath(_PathBase):
         return d[1]
 
     # -- decisions -------------------------------------------------------------
-    def branch(self, cond):
+    def branch(self, cond, raw=None):
+        tag = chash(raw if raw is not None else cond)     # order-insensitive structural hash of the term as built
         cond = z3.simplify(cond)
         if z3.is_true(cond):
             return True
         if z3.is_false(cond):
             return False
         i = len(self.decisions)
-        tag = cond.hash()
         if i < len(self.prefix):
             d = self._replayed("b", tag)
         else:
@@ -897,13 +933,13 @@ class SymPath(_PathBase):
         """fork on  exists xs. feas   vs   forall xs. not feas.
         True side: feas is added (xs stay as fresh existentials).  False side: the
         quantifier-free negation is added."""
+        tag = chash(feas)
         feas = z3.simplify(feas)
         if z3.is_true(feas):
             return True
         if z3.is_false(feas):
             return False
         i = len(self.decisions)
-        tag = feas.hash()
         if i < len(self.prefix):
             d = self._replayed("e", tag)
             if d:
@@ -1032,7 +1068,7 @@ class ConcretePath(_PathBase):
     def fresh(self, name):
         return SymReal(z3.Real(self._uniq(name)))
 
-    def branch(self, cond):
+    def branch(self, cond, raw=None):
         # only oracle-side conditions can reach here; decide them by the solver
         cond = z3.simplify(cond)
         if z3.is_true(cond):
